@@ -11,6 +11,8 @@ import (
 	"github.com/prometheus/client_golang/prometheus"
 	"github.com/prometheus/client_golang/prometheus/promauto"
 	"golang.org/x/sync/semaphore"
+
+	"github.com/sourcegraph/zoekt/internal/verifhook"
 )
 
 // Note: This is a Sourcegraph specific addition to allow long running queries
@@ -392,11 +394,13 @@ func (s *sema) Acquire(ctx context.Context) error {
 	}
 
 	s.metricRunning.Inc()
+	verifhook.Sema(s, "acquire", 1)
 
 	return nil
 }
 
 func (s *sema) Release() {
+	verifhook.Sema(s, "release", 1)
 	s.sem.Release(1)
 	s.metricRunning.Dec()
 }
